@@ -13,6 +13,12 @@
 #include <time.h>
 
 extern std::string g_outdir;
+#ifdef WENCRY_SIM_COV
+extern "C" void __gcov_dump(void);
+#define COV_DUMP() __gcov_dump()
+#else
+#define COV_DUMP()
+#endif
 
 // ---------------------------------------------------------------- simulated clock (CLI key / seed come from time())
 extern "C" time_t __real_time(time_t *);
@@ -222,6 +228,7 @@ template <class F> static std::vector<Outcome> in_child(const std::string &dir, 
     mkdir(dir.c_str(), 0700);
     if (chdir(dir.c_str()) != 0) _exit(99);
     fn();
+    COV_DUMP();
     _exit(0);
   }
   close(pfd[1]);
